@@ -28,7 +28,7 @@ COMPONENT = {
  "C19": comp("C19", "§7 C19", "MemStorage as snapshot point + compaction point + contiguous entries with the documented errors.", "MemStorage.tla", "MC_MemStorage"),
 }
 NOT_APPLICABLE = {}
-MC_PIDS = ['C01','C02','C03','C04','C05','C06','C07','C13','C16','C20']
+MC_PIDS = ['C01','C02','C03','C04','C05','C06','C07','C08','C09','C13','C15','C16','C17','C20']
 LEVEL = {p: 'model_checking' for p in MC_PIDS}
 LEVEL_TEXT = {}
 TECHNIQUE = {p: 'explicit TLA+ specification (RaftRs/Node/RawNodeOps) model-checked by TLC with the property predicates evaluated on every transition; TLC schedules replayed on the real code and recorded real executions trace-validated against the specification, predicates judged by TLC' for p in MC_PIDS}
